@@ -1382,3 +1382,5 @@ if __name__ == "__main__":
     src2v3_keys.main()
     import src2v3_enc  # work package encT: coq/gen/Src3e.v, reading side of the encryption layer (fails closed per item)
     src2v3_enc.main()
+    import src2v3_comp  # work package compT: coq/gen/Src3c.v (compress.rs, fails closed per item)
+    src2v3_comp.main()
